@@ -13,8 +13,8 @@
      (P_C05_msb.smear_all: the smear ladder yields the run of ones up to the top bit; findMSB = log2; findLSB = trailing zeros).
      gtx highestBitValue (the loop that clears the lowest set bit), powerOfTwoAbove / Below / Nearest for every positive value, and findNSB for every
      value and count (binary search over bit counts: window invariant) -- P_C18_pow2, P_C18_nsb.
-   sqrt on EVERY 32-bit value: partial correctness only (C18_sqrt_int/uint_partial: the result is floor(sqrt x) whenever the model's 64-iteration fuel suffices).
-   NOT theorems (correspondence + oracle only): that 64 iterations suffice for sqrt beyond the range above; floating ceil/floor/roundMultiple beyond the dyadic grid model.
+   sqrt(int) for every non-negative int and sqrt(uint) for every uint: floor(sqrt x) (C18_sqrt_int/uint_every_value: Newton invariant, no overflow, exit condition, and the distance to the root halves so the model's 64-iteration fuel suffices).
+   NOT theorems (correspondence + oracle only): floating ceil/floor/roundMultiple beyond the dyadic grid model.
    Refuted statements = known findings (known_findings.txt): the rotations' direction, roundMultiple,
    floor/roundPowerOfTwo of negative values, roundPowerOfTwo on 8/16-bit types above the top power, pow(x<0, 0),
    bitfieldFillOne/Zero on 64-bit values. *)
@@ -155,6 +155,11 @@ Theorem C18_sqrt_int_partial : forall x, in_T true 32 x = true -> 0 <= x -> sqrt
 Proof. exact P_C18_general.sqrt_int_partial. Qed.
 Theorem C18_sqrt_uint_partial : forall x, in_T false 32 x = true -> sqrt_uint x = -2 \/ sqrt_uint x = Z.sqrt x.
 Proof. exact P_C18_general.sqrt_uint_partial. Qed.
+(* every 32-bit value, full statement (partial correctness + the 64-iteration fuel of the model suffices) *)
+Theorem C18_sqrt_int_every_value : forall x, in_T true 32 x = true -> 0 <= x -> sqrt_int x = Z.sqrt x.
+Proof. exact P_C18_general.sqrt_int_correct. Qed.
+Theorem C18_sqrt_uint_every_value : forall x, in_T false 32 x = true -> sqrt_uint x = Z.sqrt x.
+Proof. exact P_C18_general.sqrt_uint_correct. Qed.
 (* every width, every n whose factorial is a value of T (unbounded statement; the two sweeps above are its instances) *)
 Theorem C18_factorial_all : forall sg w n, 0 < w -> (n <= 199)%nat -> in_T sg w (fact n) = true -> factorial sg w (Z.of_nat n) = fact n.
 Proof. exact P_C18_general.factorial_correct. Qed.
@@ -181,6 +186,8 @@ Print Assumptions C18_mod_int.
 Print Assumptions C18_factorial_all.
 Print Assumptions C18_sqrt_int_partial.
 Print Assumptions C18_sqrt_uint_partial.
+Print Assumptions C18_sqrt_int_every_value.
+Print Assumptions C18_sqrt_uint_every_value.
 Print Assumptions C18_ceilPowerOfTwo_every_positive_value.
 Print Assumptions C18_roundPowerOfTwo_every_positive_value.
 Print Assumptions C18_lowestBitValue_every_nonzero_value.
